@@ -565,7 +565,9 @@ class FmtStr:
         """Gets atts shared among all nonzero length component Chunks"""
         # TODO cache this, could get ugly for large FmtStrs
         atts = {}
-        first = self.chunks[0]
+        # compare against the first run that has characters: an empty leading
+        # run (as left by fmtstr('') + x) shares nothing with anybody
+        first = next((fs for fs in self.chunks if len(fs) > 0), self.chunks[0])
         for att in sorted(first.atts):
             # TODO how to write this without the '???'?
             if all(
